@@ -18,6 +18,17 @@ CAUGHT = {
     "C11-m1": ["C11 quick"], "C11-m2": ["C11 quick"], "C11-m3": ["C11 quick"],
     "C12-m1": ["C12 quick"], "C12-m2": ["C12 quick"], "C12-m3": ["C12 quick"],
     "C16-m1": ["C16 quick"], "C16-m2": ["C16 quick"], "C16-m3": ["C12 quick (loaded table differs from saved table); C16 does not load tables across processes"],
+    "C13-m1": ["C13 quick (after the expansion side got independent list actions)"], "C13-m2": ["C13 quick (structural comparison of rule actions; results)"],
+    "C13-m3": ["C13 quick (production flags; S: x* x under prefer-shifts)"],
+    "C14-m1": ["C14 quick"], "C14-m2": ["C14 quick (after SLR variants were added)"],
+    "C15-m1": ["C15 quick (FIRST/FOLLOW of the used grammar vs an untouched one)"], "C15-m2": ["C15 quick"],
+    "C15-m3": ["C15 quick (actions keep a counter in context.extra)"],
+    "C18-m1": ["C18 quick (unary-sign family with a marked EMPTY production)"], "C18-m2": ["C18 quick"],
+    "C18-m3": ["C18 quick (LAYOUT family: initialisation call repeated)"],
+    "C19-m1": ["C19 quick"], "C19-m2": ["C19 quick (keyword precedence unit)", "C07 quick (lexSortedB fails on the implementation's table; impl differs from R1-R5)"],
+    "C19-m3": ["C19 quick"],
+    "C20-m1": ["C20 quick (layered family; exact F-IMP-1 prediction does not mask it)"], "C20-m2": ["C20 quick"],
+    "C20-m3": ["C20 quick (ignore_case variants)"],
     "C17-m1": ["C17 quick"], "C17-m2": ["C07 quick (scanner with consume_input=False); not C17 itself (its scope has no terminal priorities)"], "C17-m3": ["C17 quick"],
 }
 
